@@ -19,6 +19,15 @@ re-read, and file handles the library opened and did not close are counted (Reso
 deallocation).  Model: `w_sstate` / `ob_sstate` / `ob_left_open` of Model/DispatchSeq.v (theorems
 C09_seq_streams_stay_open, C09_seq_refused_leaves_world).  The harness itself never trusts a stream to be
 usable after it was handed to the implementation.
+Position and prior content of a caller-owned stream: a stream target may already HOLD text and be positioned at its
+start (io.StringIO(text), a file opened "r+"), inside the text or behind it, and its owner rewinds / moves it between calls
+(`OSeek`); the open mode is given or not.  Model: `sstate = SOpenAt p`, `write_at` (theorems C09_seq_dump_stream,
+_dump_stream_at_end, _dump_stream_position); one-shot table: every stream cell x {StringIO, file} x {behind, start, middle}
+x {no mode, mode="w"}; real objects: the class-level writer on a TWIN stream (same kind, text and position) is the reference.
+Content alphabet: every record of the mock world (documents in files and strings, what the class-level writers write)
+carries Latin-1-range, Greek, CJK and non-BMP characters, so a path opened with another encoding / error handler than the
+class-level codec's hands over or stores other text; real files with such names, labels and comment lines, a byte order
+mark, bytes that are not text in the default encoding (family `alphabet`), objects with such names and labels dumped.
 """
 import io, os, re, sys, itertools, json, tempfile, hashlib, shutil, warnings
 import vlib
@@ -69,16 +78,41 @@ class Sent:
 
 
 GIVEN_NAME = "given-name-7"
-TOK_RE = re.compile(r"<D(\d+)>|<W:(\w+):(\w+):(\d+):(\d+)>")
+
+
+def _encodable(ch):
+    try:
+        ch.encode(__import__("locale").getpreferredencoding(False))
+        return True
+    except Exception:  # noqa
+        return False
+
+
+# CONTENT ALPHABET.  Every record that travels through an entry point -- a document in a file or in a string, what a
+# class-level writer writes into a path / a stream / a returned string -- carries characters beyond ASCII: Latin-1
+# range (e acute, degree sign, A ring), Greek, CJK (3 bytes in UTF-8) and a character outside the BMP (4 bytes).  A path
+# source / target is opened by the entry point itself: it must be opened the way the class-level codec opens it (the
+# default text encoding), so the class-level codec is handed / the file holds exactly these characters.  Only the
+# characters the default encoding of this process can represent are used (all of them under UTF-8).
+SAMPLER = "".join(ch for ch in "\u00e9\u00b0\u00c5\u03b2\u6c34\U0001F600" if _encodable(ch))
+# Every record has the SAME width (in characters and in bytes): a record written at the position of a stream that
+# already holds records replaces exactly one record (Model/DispatchSeq.v `write_at`).
+TOKW = 36
+TOK_RE = re.compile(r"<D(\d+)_*" + SAMPLER + r">|<W:([A-Za-z0-9]+):([A-Za-z0-9]+):(\d+):(\d+)_*" + SAMPLER + ">")
 
 
 def tok_text(t):
     """Text of one token of Model/DispatchSeq.v: ('D', d) | ('W', verb, fmt, o, v) | ('B',)."""
     if t[0] == "D":
-        return f"<D{t[1]}>"
-    if t[0] == "W":
-        return f"<W:{t[1]}:{t[2]}:{t[3]}:{t[4]}>"
-    return "<?>"
+        body = f"<D{t[1]}"
+    elif t[0] == "W":
+        body = f"<W:{t[1]}:{t[2]}:{t[3]}:{t[4]}"
+    else:
+        return "<?>"
+    return body + "_" * (TOKW - len(body) - len(SAMPLER) - 1) + SAMPLER + ">"
+
+
+TOKB = len(tok_text(("D", 0)).encode(__import__("locale").getpreferredencoding(False)))    # width of a record in a file
 
 
 def parse_toks(s):
@@ -86,7 +120,7 @@ def parse_toks(s):
         return [("B",)]
     out, pos = [], 0
     for m in TOK_RE.finditer(s):
-        if m.start() != pos:
+        if m.start() != pos or m.end() - m.start() != TOKW:
             return [("B",)]
         pos = m.end()
         out.append(("D", int(m.group(1))) if m.group(1) is not None
@@ -95,11 +129,22 @@ def parse_toks(s):
 
 
 def _read(path):
-    with open(path) as f:
+    """Text of a file as the class-level codec reads it (default text encoding).  Never raises on bytes that are
+    not text in that encoding: they come back as U+FFFD, which no expected text contains."""
+    with open(path, errors="replace") as f:
+        return f.read()
+
+
+def _readb(path):
+    with open(path, "rb") as f:
         return f.read()
 
 
 def _write(path, text):
+    if isinstance(text, bytes):
+        with open(path, "wb") as f:
+            f.write(text)
+        return
     with open(path, "w") as f:
         f.write(text)
 
@@ -116,14 +161,67 @@ def _detach(e):
 
 class CallerStream:
     """A stream the CALLER owns and hands to the implementation: a plain io.StringIO (kind 0) or a text file the
-    caller opened for writing (kind 1).  `observe` never raises, whatever was done to the stream."""
+    caller opened (kind 1).  It may already hold text (`pre`) and be positioned anywhere in it (`at` = number of
+    characters before the position; None = behind the text): a StringIO built from a string starts at 0, a file
+    that holds text is opened "r+" (starts at 0), either may have been rewound / moved by its owner.
+    `observe`, `pos` never raise, whatever was done to the stream."""
     KINDS = ("stringio", "file")
 
-    def __init__(self, kind, path=None, pre=""):
+    def __init__(self, kind, path=None, pre="", at=None):
         self.kind, self.path = kind, path
-        self.st = io.StringIO() if kind == 0 else open(path, "w")
-        if pre:
+        if kind == 0:
+            if pre and at is not None:
+                self.st = io.StringIO(pre)          # positioned at 0, holding text
+                self.st.seek(at)
+            else:
+                self.st = io.StringIO()
+                self.st.write(pre)
+        elif pre and at is not None:
+            _write(path, pre)
+            self.st = open(path, "r+")              # positioned at 0, holding text
+            self.st.seek(len(pre[:at].encode(self.st.encoding)))
+        else:
+            self.st = open(path, "w+")
             self.st.write(pre)
+
+    @classmethod
+    def twin(cls, cs, path):
+        """A stream of the same kind holding the same text at the same position (for the class-level writer)."""
+        val, _ = cs.observe()
+        t = cls.__new__(cls)
+        t.kind, t.path = cs.kind, path
+        if cs.kind == 0:
+            t.st = io.StringIO(val)
+            t.st.seek(cs.pos())
+        else:
+            _write(path, _readb(cs.path))
+            t.st = open(path, "r+")
+            t.st.seek(cs.pos())
+        return t
+
+    def seek_chars(self, at):
+        """The owner moves its stream behind the first `at` characters of its text (None: behind the text)."""
+        val, state = self.observe()
+        if state == "SClosed" or val is None:
+            return              # nothing the owner can do with it any more (that was observed and reported)
+        try:
+            if at is None:
+                self.st.seek(0, 2)
+            elif self.kind == 0:
+                self.st.seek(at)
+            else:
+                self.st.seek(len(val[:at].encode(self.st.encoding)))
+        except Exception:  # noqa -- never trust a stream that was handed to the implementation
+            pass
+
+    def pos(self):
+        """Position as the stream reports it (characters for a StringIO, bytes for a file), None when it has none."""
+        try:
+            if self.kind == 1:
+                self.st.flush()
+            return self.st.tell()
+        except Exception:  # noqa
+            return None
 
     def observe(self):
         """(text now held, or None when it is lost; SOpenAtEnd | SOpenElsewhere | SClosed)."""
@@ -140,9 +238,17 @@ class CallerStream:
             val = _read(self.path)
             if closed:
                 return val, "SClosed"
-            return val, ("SOpenAtEnd" if st.tell() == len(val.encode()) else "SOpenElsewhere")
+            return val, ("SOpenAtEnd" if st.tell() == len(_readb(self.path)) else "SOpenElsewhere")
         except Exception:  # noqa -- unusable for the caller
             return None, "SClosed"
+
+    def sstate(self):
+        """The `sstate` term of Model/DispatchSeq.v: open behind the first n records / open inside a record / closed."""
+        val, state = self.observe()
+        if state == "SClosed" or val is None:
+            return "SClosed"
+        p, w = self.pos(), (TOKW if self.kind == 0 else TOKB)
+        return f"(SOpenAt {p // w}%nat)" if p is not None and p % w == 0 else "SOpenElsewhere"
 
     def dispose(self):
         try:
@@ -336,7 +442,10 @@ class MockEnv:
             elif verb == "VDump":
                 n0 = len(obj.calls)
                 target = stream.st if tgt == "TStream" else p_arg
-                res = ml.dump(obj, target, fmt_arg, writer=PARSERS[parser], mode=mode)
+                # the open mode is a property of a PATH target; a stream target is handed over without one (the default)
+                # or with one -- it must not matter
+                mkw = {} if (tgt == "TStream" and mode in (None, "a")) else {"mode": mode}
+                res = ml.dump(obj, target, fmt_arg, writer=PARSERS[parser], **mkw)
                 calls = obj.calls[n0:]
                 if res is not None or len(calls) != 1:
                     return ("(AOdd 1)" if res is not None else ("ANothing" if not calls else "(AOdd 2)")), None
@@ -344,8 +453,10 @@ class MockEnv:
                 if extra:
                     return "(AOdd 3)", None
                 if tgt == "TStream":
+                    # the record arrived in the stream given (WHERE it arrived, and what else the stream holds, is the
+                    # observation of the world: `ob_streams` / `ob_sstate`, one-shot: observe_cell)
                     val, state = stream.observe()
-                    ok = st is stream.st and state != "SClosed" and val is not None and (val == tok if fresh else val.endswith(tok))
+                    ok = st is stream.st and state != "SClosed" and val is not None and (val == tok if fresh else tok in val)
                     return f"(AWrote ({meth[0]}, {meth[1]}) SGivenStream {cq_bool(ok)})", None
                 val = _read(path)
                 ok = st.closed and (val == tok if fresh else val.endswith(tok)) and os.path.abspath(st.name) == os.path.abspath(path)
@@ -389,16 +500,21 @@ class MockEnv:
         return act, seen[0]
 
 
-ODD_CODES = {7: "caller-stream-closed", 8: "caller-stream-content-or-position", 9: "stream-kinds-treated-differently",
+ODD_CODES = {7: "caller-stream-closed", 8: "caller-stream-content-or-position", 9: "stream-kinds-positions-or-modes-treated-differently",
              10: "handle-left-open", 11: "object-dumped-was-modified"}
-PRE_TEXT = "<D7>"        # what a caller's stream already holds before the one-shot call
+PRE_TEXT = tok_text(("D", 7)) + tok_text(("D", 8))       # what a caller's stream already holds before the one-shot call
+# where the caller's stream is positioned when it is handed over (in records; None = behind the text): behind its text,
+# at its start (a StringIO built from a string, a file opened "r+", a stream rewound to be overwritten), in the middle
+ONESHOT_AT = (None, 0, 1)
 
 
 def observe_cell(ml, c, work):
     """Run one cell ONCE against fresh recording mocks and fresh files; return the Coq `action` term.
-    What the caller owns is part of the observation: AOdd 7 = the stream given was closed by the call, 8 = what it
-    held before was changed / a refused call wrote into it / it is not positioned after the text, 9 = a StringIO and
-    a caller-opened file are treated differently, 10 = a file handle opened by the library was left open."""
+    What the caller owns is part of the observation: AOdd 7 = the stream given was closed by the call, 8 = the stream
+    does not hold `write_at (what it held) (its position) [the record]` / a refused call wrote into it or moved it / it
+    is not positioned right behind the record, 9 = a StringIO and a caller-opened file, or streams positioned behind
+    their text / at their start / in the middle, are treated differently, 10 = a file handle opened by the library was
+    left open."""
     verb, fmt, fsrc, otype, named, tgt, parser, dotted = c
     ext = FMTS[fmt]
     stem = "in.put.v2" if dotted else "input"
@@ -406,7 +522,7 @@ def observe_cell(ml, c, work):
     _write(path, "mock file body\n")
     data = "mock string body " + ext
 
-    def once(env, kind):
+    def once(env, kind, at=None, mode="w"):
         if verb in ("VLoad", "VLoadAll"):
             return env.call(c, path=path)[0]
         if verb in ("VLoads", "VLoadsAll"):
@@ -417,14 +533,23 @@ def observe_cell(ml, c, work):
             if os.path.exists(opath):
                 os.remove(opath)
             if tgt == "TStream":
-                cs = CallerStream(kind, os.path.join(work, "caller_stream.log"), pre=PRE_TEXT)
+                cs = CallerStream(kind, os.path.join(work, "caller_stream.log"), pre=PRE_TEXT,
+                                  at=None if at is None else at * TOKW)
+                n0 = len(PRE_TEXT) // TOKW if at is None else at
                 try:
-                    a = env.call(c, obj=obj, stream=cs, fresh=False)[0]
+                    st0 = cs.sstate()
+                    a = env.call(c, obj=obj, stream=cs, fresh=False, mode=mode)[0]
                     val, state = cs.observe()
                     if state == "SClosed":
                         return "(AOdd 7)"
-                    if state != "SOpenAtEnd" or val is None or not val.startswith(PRE_TEXT) \
-                            or (a.startswith("(ARaise") and val != PRE_TEXT):
+                    if val is None or st0 != f"(SOpenAt {n0}%nat)":
+                        return "(AOdd 8)"
+                    if a.startswith("(ARaise"):
+                        return a if val == PRE_TEXT and cs.sstate() == st0 else "(AOdd 8)"
+                    # the record (whatever it is) lies AT the position; before and behind it the stream holds what it held
+                    if len(val) != max(len(PRE_TEXT), (n0 + 1) * TOKW) or val[:n0 * TOKW] != PRE_TEXT[:n0 * TOKW] \
+                            or val[(n0 + 1) * TOKW:] != PRE_TEXT[(n0 + 1) * TOKW:] or cs.sstate() != f"(SOpenAt {n0 + 1}%nat)" \
+                            or parse_toks(val[n0 * TOKW:(n0 + 1) * TOKW])[0][0] != "W":
                         return "(AOdd 8)"
                     return a
                 finally:
@@ -433,13 +558,16 @@ def observe_cell(ml, c, work):
         return env.call(c, obj=obj)[0]
 
     acts = []
-    for kind in ((0, 1) if tgt == "TStream" else (0,)):
+    # a stream target: both kinds x every position x without an open mode (the default) / with mode="w"
+    for kind, at, mode in (itertools.product((0, 1), ONESHOT_AT, (None, "w")) if tgt == "TStream" else ((0, None, "w"),)):
         with MockEnv(ml) as env:
             with LeakWatch(work) as lw:
-                a = once(env, kind)
+                a = once(env, kind, at, mode)
             acts.append("(AOdd 10)" if lw.n else a)
     if any(a != acts[0] for a in acts):
-        return "(AOdd 9)"
+        # the most specific observation names the cell: what happened to the caller's stream, else "treated differently"
+        odd = [a for a in acts if a.startswith("(AOdd")]
+        return odd[0] if odd else "(AOdd 9)"
     return acts[0]
 
 
@@ -513,7 +641,19 @@ class Confirm:
 
 
 # ------------------------------------------------------------------ histories under mocks (Model/DispatchSeq.v)
-# op = ("call", cell, slot, o, v, "a"|"w") | ("rewrite", fkey, d);  fkey = (slot, ext-kind, dotted), ext-kind = fmt tag | "EDat"
+# op = ("call", cell, slot, o, v, "a"|"w") | ("rewrite", fkey, d) | ("seek", stream, p);
+# fkey = (slot, ext-kind, dotted), ext-kind = fmt tag | "EDat".
+# A history may START with the pseudo-operation ("streams", (docs, p), (docs, p)): what the caller's streams #0 / #1 hold
+# (documents) and where they are positioned (records; None = behind the text) when the history begins -- it is the
+# initial world of Model/DispatchSeq.v, not an operation of it.
+def split_prog(prog):
+    """(initial streams [(docs, position in records)] per stream, the operations)."""
+    if prog and prog[0][0] == "streams":
+        ini = [(list(d), len(d) if p is None else min(p, len(d))) for d, p in prog[0][1:]]
+        return ini, list(prog[1:])
+    return [([], 0) for _ in range(N_STREAMS)], list(prog)
+
+
 def fkey_of(c, slot):
     return (slot, c[1] if c[2] == "FsSuffix" else "EDat", c[7])
 
@@ -542,15 +682,28 @@ def fkey_term(k):
 def op_term(op):
     if op[0] == "rewrite":
         return f"(ORewrite {fkey_term(op[1])} {op[2]}%nat)"
+    if op[0] == "seek":
+        return f"(OSeek {op[1]}%nat {op[2]}%nat)"
+    if op[0] == "streams":
+        return "(* the caller's streams hold " + " / ".join(f"documents {list(d)} positioned behind {p} record(s)"
+                                                              for d, p in split_prog([op])[0]) + " *)"
     _, c, slot, o, v, md = op
     return f"(OCall {cell_term(c)} {slot}%nat {o}%nat {v}%nat {'MAppend' if md == 'a' else 'MTrunc'})"
 
 
 def op_json(op):
+    if op[0] == "seek":
+        return list(op)
+    if op[0] == "streams":
+        return ["streams"] + [[list(d), p] for d, p in op[1:]]
     return ["rewrite", list(op[1]), op[2]] if op[0] == "rewrite" else ["call", list(op[1]), *op[2:]]
 
 
 def op_unjson(j):
+    if j[0] == "seek":
+        return tuple(j)
+    if j[0] == "streams":
+        return ("streams",) + tuple((tuple(d), p) for d, p in j[1:])
     return ("rewrite", tuple(j[1]), j[2]) if j[0] == "rewrite" else ("call", tuple(j[1]), *j[2:])
 
 
@@ -559,6 +712,8 @@ def prog_files(prog):
     ks = []
     for op in prog:
         k = None
+        if op[0] in ("seek", "streams"):
+            continue
         if op[0] == "rewrite":
             k = op[1]
         elif op[1][0] in ("VLoad", "VLoadAll") or (op[1][0] == "VDump" and op[1][5] != "TStream"):
@@ -572,9 +727,13 @@ N_STREAMS = 2
 
 
 def py_step(files, streams, op):
-    """Python mirror of Model/DispatchSeq.v `step` (used to NAME the diverging step; Coq decides)."""
+    """Python mirror of Model/DispatchSeq.v `step` (used to NAME the diverging step; Coq decides).
+    streams[s] = [records, position in records]."""
     if op[0] == "rewrite":
         files[op[1]] = [("D", op[2])]
+        return "ANothing", None
+    if op[0] == "seek":
+        streams[op[1]][1] = min(op[2], len(streams[op[1]][0]))
         return "ANothing", None
     _, c, slot, o, v, md = op
     a = py_spec(c)
@@ -586,7 +745,8 @@ def py_step(files, streams, op):
     if verb == "VDump" and a.startswith("(AWrote"):
         tok = ("W", "VDump", c[1], o, v)
         if c[5] == "TStream":
-            streams[slot] = streams[slot] + [tok]
+            t, q = streams[slot]                    # write_at: the record replaces the one at the position (or is appended)
+            streams[slot] = [t[:q] + [tok] + t[q + 1:], q + 1]
         else:
             files[k] = (files[k] if md == "a" else []) + [tok]
         return a, None
@@ -600,19 +760,31 @@ def observe_prog(ml, prog, work):
     Returns (init files, [ (action, seen toks|None, [file toks], [stream toks], [stream states], handles left open)
     per step ]).  Stream #0 is a StringIO, stream #1 a text file opened by the caller."""
     os.makedirs(work, exist_ok=True)
+    sini, prog = split_prog(prog)
     init = prog_files(prog)
     pth = {k: os.path.join(work, fkey_name(k)) for k, _ in init}
     for k, t in init:
         _write(pth[k], "".join(tok_text(x) for x in t))
-    streams = [CallerStream(i % 2, os.path.join(work, f"caller_stream{i}.log")) for i in range(N_STREAMS)]
+    # a stream that holds text when the history begins and is not positioned behind it is BUILT that way
+    # (io.StringIO(text) / open(path, "r+")), one positioned behind its text was written by its owner
+    streams = [CallerStream(i % 2, os.path.join(work, f"caller_stream{i}.log"),
+                            pre="".join(tok_text(("D", d)) for d in docs), at=None if q == len(docs) else q * TOKW)
+               for i, (docs, q) in enumerate(sini)]
     datas = {}
-    mfiles, mstreams = {k: list(t) for k, t in init}, [[] for _ in range(N_STREAMS)]     # mirror, for the repair below
+    mfiles = {k: list(t) for k, t in init}                                          # mirror, for the repair below
+    mstreams = [[[("D", d) for d in docs], q] for docs, q in sini]
     out = []
     try:
         with MockEnv(ml) as env:
             for op in prog:
                 leaks = 0
-                if op[0] == "rewrite":
+                if op[0] == "seek":
+                    cs = streams[op[1]]
+                    val, _ = cs.observe()
+                    if val is not None:
+                        cs.seek_chars(min(op[2], len(val) // TOKW) * TOKW)
+                    act, seen = "ANothing", None
+                elif op[0] == "rewrite":
                     st0 = os.stat(pth[op[1]])
                     _write(pth[op[1]], tok_text(("D", op[2])))
                     if op[2] % 2:       # odd documents arrive with the time stamp (and length) of what they replace
@@ -632,7 +804,7 @@ def observe_prog(ml, prog, work):
                             obj = env.obj(c[3], o)
                             obj.ver = v                     # the object was modified since the previous call
                             if verb == "VDump" and c[5] == "TStream":
-                                act, seen = env.call(c, obj=obj, stream=streams[slot], fresh=False)
+                                act, seen = env.call(c, obj=obj, stream=streams[slot], mode=md, fresh=False)
                             elif verb == "VDump":
                                 act, seen = env.call(c, path=pth[fkey_of(c, slot)], obj=obj, mode=md, fresh=False)
                             else:
@@ -652,7 +824,7 @@ def observe_prog(ml, prog, work):
                         fobs.append([("B",)])
                 sob = [cs.observe() for cs in streams]      # never raises: a closed / garbled stream is an observation
                 out.append((act, None if seen is None else parse_toks(seen), fobs, [parse_toks(t) for t, _ in sob],
-                            [q for _, q in sob], leaks))
+                            [cs.sstate() for cs in streams], leaks))
     finally:
         for cs in streams:
             cs.dispose()
@@ -660,20 +832,22 @@ def observe_prog(ml, prog, work):
 
 
 def model_prog(prog):
+    sini, prog = split_prog(prog)
     init = prog_files(prog)
-    files, streams = {k: list(t) for k, t in init}, [[] for _ in range(N_STREAMS)]
+    files, streams = {k: list(t) for k, t in init}, [[[("D", d) for d in docs], q] for docs, q in sini]
     out = []
     for op in prog:
         a, seen = py_step(files, streams, op)
-        out.append((a, seen, [list(files[k]) for k, _ in init], [list(x) for x in streams],
-                    ["SOpenAtEnd"] * N_STREAMS, 0))
+        out.append((a, seen, [list(files[k]) for k, _ in init], [list(t) for t, _ in streams],
+                    [f"(SOpenAt {q}%nat)" for _, q in streams], 0))
     return init, out
 
 
 def seqcase_term(init, prog, obs):
+    sini, prog = split_prog(prog)
     w = ("(mk_world " + cq_list(f"({fkey_term(k)}, {text_term(t)})" for k, t in init) + " "
-         + cq_list(f"({i}%nat, [])" for i in range(N_STREAMS)) + " "
-         + cq_list(f"({i}%nat, SOpenAtEnd)" for i in range(N_STREAMS)) + ")")
+         + cq_list(f"({i}%nat, {text_term([('D', d) for d in docs])})" for i, (docs, q) in enumerate(sini)) + " "
+         + cq_list(f"({i}%nat, (SOpenAt {q}%nat))" for i, (docs, q) in enumerate(sini)) + ")")
     ob = cq_list(f"(mk_obs ({a}, {'None' if sn is None else '(Some ' + text_term(sn) + ')'}) "
                  f"{cq_list(text_term(t) for t in fo)} {cq_list(text_term(t) for t in so)} {cq_list(ss)} {lk}%nat)"
                  for a, sn, fo, so, ss, lk in obs)
@@ -683,6 +857,8 @@ def seqcase_term(init, prog, obs):
 def judge_prog(prog, obs):
     """First step where the recorded history leaves the model: (signature, text) or None."""
     _, want = model_prog(prog)
+    head_ops = [o for o in prog[:1] if o[0] == "streams"]
+    _, prog = split_prog(prog)
     last_touch = {}
     for i, (op, g, w) in enumerate(zip(prog, obs, want)):
         if op[0] == "call":
@@ -702,11 +878,13 @@ def judge_prog(prog, obs):
         elif g[4] != w[4]:
             # an object the CALLER owns: the stream handed over (or any other stream) was closed / left elsewhere
             j = [a != b for a, b in zip(g[4], w[4])].index(True)
-            what = (f"caller-stream-{'closed' if g[4][j] == 'SClosed' else 'not-at-end'}:{CallerStream.KINDS[j % 2]}:"
+            what = (f"caller-stream-{'closed' if g[4][j] == 'SClosed' else 'position'}:{CallerStream.KINDS[j % 2]}:"
                     f"{'refused' if w[0].startswith('(ARaise') else 'accepted'}-call")
-            detail = (f"stream #{j} ({CallerStream.KINDS[j % 2]}) of the caller is {g[4][j]} after the call "
+            detail = (f"stream #{j} ({CallerStream.KINDS[j % 2]}) of the caller is {g[4][j]} and holds "
+                      f"{None if g[3][j] is None else ''.join(map(tok_text, g[3][j]))!r} after the call "
                       f"(the call {'was refused with ' + w[0] if w[0].startswith('(ARaise') else 'did ' + w[0]}); it must be left "
-                      f"open, positioned after the text, holding {''.join(map(tok_text, w[3][j]))!r}")
+                      f"open, {w[4][j]} (a record is written AT the position the stream had, the stream is left right behind it; "
+                      f"a refused call does not move it), holding {''.join(map(tok_text, w[3][j]))!r}")
         elif g[2] != w[2] or g[3] != w[3]:
             what = "world"
             detail = (f"files/streams afterwards {[''.join(map(tok_text, t)) for t in g[2] + g[3]]}, "
@@ -718,13 +896,15 @@ def judge_prog(prog, obs):
             if op[0] == "call":
                 head = f"C09:seq:{c[0]}:{c[1]}:{rel}:{what}"
             else:
-                head = f"C09:seq:rewrite:{what}"
-            hist = " ; ".join(op_term(o) for o in prog[:i + 1])
+                head = f"C09:seq:{op[0]}:{what}"
+            hist = " ; ".join(op_term(o) for o in head_ops + prog[:i + 1])
             return head, f"step {i} of the history [{hist}]: {detail}"
         if op[0] == "call":
             last_touch[src] = "after-" + c[0]
             if c[0] == "VDump" and c[5] != "TStream":
                 last_touch[("file", fkey_of(c, op[2]))] = "after-VDump"
+        elif op[0] == "seek":
+            last_touch[("stream", op[1])] = "after-seek"
         else:
             last_touch[("file", op[1])] = "after-rewrite"
     return None
@@ -781,15 +961,45 @@ def gen_progs(ctx, rep):
                  ("call", rd, rslot, 0, 0, "a"), ("call", c, 1 - slot, 1, 0, "a"), ("call", cp, 0, 0, 1, rng.choice("aw")),
                  ("call", c, slot, 0, 2, "a"), ("call", g0, slot, 0, 2, "a"), ("call", g1, 1 - slot, 1, 1, "a")]
             progs.append(("owned", p))
-    # random histories over two file slots, two streams, two objects, a few documents
+    # POSITION AND PRIOR CONTENT of a stream the caller owns: every configuration of dump-into-a-stream (accepted and
+    # refused), on a StringIO and on a file opened by the caller, into a stream that ALREADY HOLDS documents and is
+    # positioned at its start (built from a string / opened "r+"), inside its text, or behind it; rewound or moved by its
+    # owner between two dumps; with a refused dump, a reader and a dump into the other stream in between.  The record
+    # must land AT the position (over the record there), the stream is left right behind it, the rest is kept.
+    for c in cells:
+        if c[0] != "VDump" or c[5] != "TStream":
+            continue
+        if c[6] != "PMolli" and not ctx.thorough and rng.random() < 0.5:
+            continue
+        for slot in range(N_STREAMS):
+            g0 = rng.choice(ok_stream)
+            docs = tuple(rng.sample(range(70, 90), rng.randint(2, 4)))
+            at = rng.choice([0, 0, 1, len(docs) - 1, None])
+            other = (tuple(rng.sample(range(90, 99), rng.randint(0, 2))), rng.choice([0, None]))
+            ini = ("streams", (docs, at), other) if slot == 0 else ("streams", other, (docs, at))
+            refused = rng.choice([x for x in cells if x[0] == "VDump" and x[5] == "TStream" and py_spec(x).startswith("(ARaise")])
+            rd = rng.choice(rd_any)
+            p = [ini, ("call", c, slot, 0, 0, "a"), ("call", g0, slot, 1, 0, rng.choice("aw")), ("call", refused, slot, 0, 1, "a"),
+                 ("seek", slot, rng.randint(0, 2)), ("call", c, slot, 0, 1, "a"), ("call", rd, 0, 0, 0, "a"),
+                 ("call", g0, 1 - slot, 1, 1, "a"), ("seek", slot, 0), ("call", g0, slot, 0, 2, "w"),
+                 ("seek", slot, 99), ("call", c, slot, 1, 2, "a"), ("call", refused, 1 - slot, 1, 2, "a")]
+            progs.append(("position", p))
+    # random histories over two file slots, two streams (empty or holding documents, positioned anywhere; moved by their
+    # owner), two objects, a few documents
     good = [c for c in cells if c[6] != "PUnknown" and c[1] in ("FXyz", "FMol2", "FCdxml")]
     n_rand = 2500 if ctx.thorough else 400
     for _ in range(n_rand):
         p, ver = [], {}
+        if rng.random() < 0.5:
+            p.append(("streams",) + tuple((tuple(rng.sample(range(70, 99), rng.randint(0, 3))), rng.choice([None, 0, 1, 2]))
+                                          for _ in range(N_STREAMS)))
         for _ in range(rng.randint(3, 9)):
             r = rng.random()
             c = rng.choice(good if r < 0.85 else cells)
             slot = rng.randint(0, 1)
+            if rng.random() < 0.12:
+                p.append(("seek", rng.randint(0, N_STREAMS - 1), rng.randint(0, 4)))
+                continue
             if p and rng.random() < 0.25:
                 ks = [k for k, _ in prog_files(p)]
                 if ks:
@@ -821,15 +1031,23 @@ def run_seq_mocks(ctx, rep, coq=True):
         rep.case(key="seq:" + hashlib.sha1(term.encode()).hexdigest()[:16])
         rep.count("seq:family:" + fam)
         prev = "start"
-        for op, ob in zip(prog, obs):
-            cur = "rewrite" if op[0] == "rewrite" else op[1][0]
+        sini, ops = split_prog(prog)
+        mirror = [[list(d), q] for d, q in sini]
+        for op, ob in zip(ops, obs):
+            cur = op[0] if op[0] in ("rewrite", "seek") else op[1][0]
             rep.count(f"seq:pair:{prev}>{cur}")
             prev = cur
             if cur == "VDump" and op[1][5] == "TStream":
                 rep.count(f"seq:caller-stream:{CallerStream.KINDS[op[2] % 2]}:"
                           + ("refused" if ob[0].startswith("(ARaise") else "accepted"))
-            elif cur != "rewrite" and ob[0].startswith("(ARaise"):
+                t, q = mirror[op[2]]
+                rep.count("seq:caller-stream-position:" + ("empty" if not t else "behind-its-text" if q == len(t) else
+                                                           "at-its-start" if q == 0 else "inside-its-text")
+                          + (":refused" if ob[0].startswith("(ARaise") else ":accepted"))
+            elif cur not in ("rewrite", "seek") and ob[0].startswith("(ARaise"):
                 rep.count(f"seq:refused:{cur}")
+            if op[0] == "seek" or (cur == "VDump" and op[1][5] == "TStream"):
+                py_step({}, mirror, op)
         r = judge_prog(prog, obs)
         if r:
             found = True
@@ -1021,6 +1239,29 @@ def _variant(text, fmt):
     return text[:i] + str((int(text[i]) + 1) % 10) + text[i + 1:]
 
 
+def _exotic_text(text, fmt):
+    """The file as another program would have written it: molecule names / comment lines and some atom labels beyond ASCII."""
+    if fmt == "xyz":
+        lines, out, i = text.split("\n"), [], 0
+        while i < len(lines):
+            out.append(lines[i])
+            if lines[i].strip().isdigit() and i + 1 < len(lines):
+                n = int(lines[i])
+                out.append(lines[i + 1] + " E = -1.5 \u00c5 \u00b0 \u03b2 \u6c34")
+                out += lines[i + 2:i + 2 + n]
+                i += 2 + n
+            else:
+                i += 1
+        return "\n".join(out)
+    text = re.sub(r"(@<TRIPOS>MOLECULE\r?\n)([^\r\n]*)", lambda m: m.group(1) + m.group(2) + "_\u03b2\u00b0\u00c5\u00e9\u6c34", text)
+    k = [0]
+
+    def lab(m):
+        k[0] += 1
+        return m.group(1) + (m.group(2) + "\u03b1\u00b0" if k[0] % 4 == 1 else m.group(2))
+    return re.sub(r"(?m)^(\s*\d+\s+)([A-Za-z]\w*)(?=\s+-?\d+\.\d+\s+-?\d+\.\d+\s+-?\d+\.\d+\s+\S+)", lab, text)
+
+
 class RealWorld:
     """Content pool (bundled files + same-length variants + files written by the class-level writers),
     object pool, and the judge of one step."""
@@ -1034,6 +1275,21 @@ class RealWorld:
             "mol2": [rd(F.dendrobine_mol2), rd(F.pentane_confs_mol2), rd(F.benzene_mol2), rd(F.dmf_mol2), rd(F.fxyl_mol2)],
             "cdxml": [rd(F.substituents_cdxml), rd(F.charges_mult_cdxml), rd(F.BOX_bridge), rd(F.BOX_cores)],
         }
+        # CONTENT ALPHABET: molecule names, atom labels and comment lines beyond ASCII (Latin-1 range, Greek, CJK, outside the
+        # BMP), as the class-level writers render them and as another program would write them
+        xm, xe = self.exotic_objects()
+        self.xpool = {
+            "xyz": [xm.dumps_xyz(), xe.dumps_xyz(),
+                    _exotic_text(rd(F.pentane_confs_xyz), "xyz"),
+                    "\ufeff" + rd(F.dendrobine_xyz),                                  # a byte order mark in front
+                    _exotic_text(rd(F.dendrobine_xyz), "xyz").encode("latin-1", "ignore")],   # NOT text in UTF-8
+            "mol2": [xm.dumps_mol2(), xe.dumps_mol2(),
+                     _exotic_text(rd(F.pentane_confs_mol2), "mol2"),
+                     "\ufeff" + rd(F.benzene_mol2),
+                     _exotic_text(rd(F.dendrobine_mol2), "mol2").encode("latin-1", "ignore")],
+        }
+        for fmt in ("xyz", "mol2"):
+            self.pool[fmt] += self.xpool[fmt][:2]
         for fmt in list(self.pool):
             self.pool[fmt] += [_variant(t, fmt) for t in self.pool[fmt][:2]]
         # generated files: other molecules rendered by the class-level xyz writer
@@ -1066,10 +1322,23 @@ class RealWorld:
                 raise FailingWriter("class-level mol2 writer failed")
         return Faulty(ml.Molecule.load_mol2(str(ml.files.benzene_mol2)))
 
+    def exotic_objects(self):
+        """A molecule and an ensemble whose name and atom labels hold characters beyond ASCII."""
+        ml, F = self.ml, self.ml.files
+        out = []
+        for o, nm in ((ml.Molecule.load_mol2(str(F.dmf_mol2)), "\u03b2-pin\u00e8ne_25\u00b0C_\u6c34\U0001F600"),
+                      (ml.ConformerEnsemble.load_mol2(str(F.pentane_confs_mol2)), "pentane_\u00c5_\u03b1\u03c9")):
+            o.name = nm
+            for i, a in enumerate(o.atoms):
+                if i % 3 == 0:
+                    a.label = (a.label or a.element.symbol) + "\u03b1\u00b0"
+            out.append(o)
+        return out
+
     def fresh_objects(self):
         ml, F = self.ml, self.ml.files
         return [ml.Molecule.load_mol2(str(F.dendrobine_mol2)), ml.ConformerEnsemble.load_mol2(str(F.pentane_confs_mol2)),
-                ml.Molecule.load_mol2(str(F.benzene_mol2))]
+                ml.Molecule.load_mol2(str(F.benzene_mol2))] + self.exotic_objects()
 
 
 def real_class_load(rw, verb, path, fmt, cls, name, key):
@@ -1110,6 +1379,7 @@ def _run_real_steps(rw, prog, work, paths, cur, objs, streams, last, out):
     ml = rw.ml
     from pathlib import Path
     faulty = None
+    ruined = set()      # streams of the caller that an earlier step of this history left in a state that was reported
 
     def bad(i, op, fmt, rel, what, text):
         out.append((i, f"C09:seq-real:{op[0] if op[0] != 'load' else op[1]}:{fmt}:{rel}:{what}",
@@ -1148,9 +1418,11 @@ def _run_real_steps(rw, prog, work, paths, cur, objs, streams, last, out):
 
     for i, op in enumerate(prog):
         kind = op[0]
-        if kind == "put":
+        if kind in ("put", "putx"):
+            # putx: content beyond ASCII (names, labels, comment lines; a byte order mark; bytes that are not text in the
+            # default encoding), written by the environment as BYTES / in the default encoding
             _, slot, fmt, idx, how = op
-            text = rw.pool[fmt][idx % len(rw.pool[fmt])]
+            text = rw.pool[fmt][idx % len(rw.pool[fmt])] if kind == "put" else rw.xpool[fmt][idx % len(rw.xpool[fmt])]
             p = paths[slot]
             st = os.stat(p) if os.path.exists(p) else None
             if how == "replace" and st is not None:
@@ -1179,7 +1451,7 @@ def _run_real_steps(rw, prog, work, paths, cur, objs, streams, last, out):
                 want = real_class_load(rw, verb, p, fmt, cls, name, key)
             except Exception as e:  # noqa
                 want = e
-            src_before = _read(p) if os.path.exists(p) else None
+            src_before = _readb(p) if os.path.exists(p) else None
             with LeakWatch(work) as lw:
                 try:
                     fn = ml.load if verb == "load" else ml.load_all
@@ -1191,15 +1463,19 @@ def _run_real_steps(rw, prog, work, paths, cur, objs, streams, last, out):
             if lw.n:
                 bad(i, op, fmt, last.get(("file", slot), "first"), "handle-left-open",
                     f"the reader left {lw.n} file handle(s) open: {lw.names[:2]}")
-            elif src_before is not None and _read(p) != src_before:
+            elif src_before is not None and _readb(p) != src_before:
                 bad(i, op, fmt, last.get(("file", slot), "first"), "source-file-changed", "the file read is not what it was before the call")
             compare(i, op, fmt, last.get(("file", slot), "first"), want, got, verb == "load_all", name if key is None else None)
             if spoil_it and not isinstance(got, Exception):
                 spoil(got)
             last[("file", slot)] = "after-" + verb
-        elif kind == "loads":
+        elif kind in ("loads", "loadsx"):
             _, verb, fmt, idx, otn, name, spoil_it = op
-            text = rw.pool[fmt][idx % len(rw.pool[fmt])]
+            if kind == "loads":
+                text = rw.pool[fmt][idx % len(rw.pool[fmt])]
+            else:
+                xs = [t for t in rw.xpool[fmt] if isinstance(t, str)]
+                text = xs[idx % len(xs)]
             cls = rw.otypes[otn]
             try:
                 want = getattr(cls, verb + "_" + fmt)(text, name=name)
@@ -1209,11 +1485,28 @@ def _run_real_steps(rw, prog, work, paths, cur, objs, streams, last, out):
                 got = getattr(ml, verb)(text, fmt, otype=(cls if otn == "Structure" else otn), name=name)
             except Exception as e:  # noqa
                 got = e
-            src = ("str", fmt, idx % len(rw.pool[fmt]))
+            src = ("str", kind, fmt, idx % len(rw.pool[fmt]))
             compare(i, op, fmt, last.get(src, "first"), want, got, verb == "loads_all", name)
             if spoil_it and not isinstance(got, Exception):
                 spoil(got)
             last[src] = "after-" + verb
+        elif kind == "seek":
+            # the owner moves its stream: to its start (to overwrite), into its text, behind its text
+            _, ti, frac = op
+            cs = streams[ti % 2]
+            val, st0 = cs.observe()
+            if st0 != "SClosed" and val is not None:
+                cs.seek_chars(None if frac is None else int(len(val) * frac))
+            last[("stream", ti % 2)] = "after-seek"
+        elif kind == "restream":
+            # the owner replaces its stream by one that HOLDS TEXT already and is positioned at its start (a StringIO
+            # built from a string, a file opened "r+") / somewhere in the text / behind it
+            _, ti, fmt, idx, frac = op
+            text = rw.pool[fmt][idx % len(rw.pool[fmt])]
+            streams[ti % 2].dispose()
+            streams[ti % 2] = CallerStream(ti % 2, os.path.join(work, "caller_stream.log"), pre=text,
+                                           at=None if frac is None else int(len(text) * frac))
+            last[("stream", ti % 2)] = "after-restream"
         elif kind == "mutate":
             o = objs[op[1] % len(objs)]
             o.coords = o.coords + 0.25
@@ -1264,40 +1557,68 @@ def _run_real_steps(rw, prog, work, paths, cur, objs, streams, last, out):
                 cs = streams[ti % 2]
                 skind = CallerStream.KINDS[ti % 2]
                 before, st0 = cs.observe()
+                pos0 = cs.pos()
                 rel = last.get(("stream", ti % 2), "first")
-                if st0 != "SOpenAtEnd" or before is None:
+                if st0 == "SClosed" or before is None or pos0 is None or (ti % 2) in ruined:
                     continue        # an earlier step of this history already ruined (and reported) this stream
                 supported = explicit and fmt in ("xyz", "mol2")
-                ref, ref_err = class_ref(fmt)
+                # the reference: the class-level writer handed a stream of the same kind, holding the same text, AT THE SAME
+                # POSITION (behind the text it appends; elsewhere it writes over what lies there -- it never jumps to the end)
+                tw = CallerStream.twin(cs, os.path.join(work, "twin_stream.log"))
+                ref_err = None
+                try:
+                    if supported:
+                        try:
+                            getattr(o, "dump_" + fmt)(tw.st)
+                        except Exception as e:  # noqa
+                            ref_err = e
+                    want_after, want_st = tw.observe()
+                    want_pos = tw.pos()
+                finally:
+                    tw.dispose()
                 outcome = "refused" if not supported else "writer-failed" if ref_err is not None else "accepted"
+                where = "behind-its-text" if st0 == "SOpenAtEnd" else "at-its-start" if pos0 == 0 else "inside-its-text"
                 r, err = None, None
                 with LeakWatch(work) as lw:
                     try:
-                        r = ml.dump(o, cs.st, fmt if explicit else None)
+                        # the open mode belongs to path targets: with or without one a stream is written at its position
+                        r = ml.dump(o, cs.st, fmt if explicit else None, **({} if mode is None else {"mode": mode}))
                     except Exception as e:  # noqa
                         err = e
                         _detach(e)
                 after, st1 = cs.observe()      # never raises: a closed / garbled stream is an observation
-                if st1 != "SOpenAtEnd":
-                    bad(i, op, fmt, rel, f"caller-stream-{'closed' if st1 == 'SClosed' else 'not-at-end'}:{skind}:{outcome}-call",
+                pos1 = cs.pos()
+                n_bad = len(out)
+                if st1 == "SClosed":
+                    bad(i, op, fmt, rel, f"caller-stream-closed:{skind}:{outcome}-call",
                         f"the {skind} stream of the caller is {st1} after a dump that was {outcome} ({err!r}); the stream given "
-                        "is the caller's: it must be left open, positioned after the text")
+                        "is the caller's: it must be left open, positioned right behind the text written")
                 elif not supported:
                     if not isinstance(err, (ValueError, NotImplementedError)):
                         bad(i, op, fmt, rel, "unsupported-not-refused", f"expected ValueError, got {err!r}")
                     elif after != before:
                         bad(i, op, fmt, rel, f"refused-dump-wrote:{skind}", "a refused dump changed what the caller's stream held")
-                elif ref_err is not None:
-                    if type(err) is not type(ref_err):
-                        bad(i, op, fmt, rel, "class-codec-raises", f"class-level writer raised {ref_err!r}, entry point gave {err!r}")
-                    elif after != before + ref:
-                        bad(i, op, fmt, rel, "text-differs", "the stream does not hold (what it held) + (what the failing class-level writer wrote)")
-                elif err is not None:
+                    elif pos1 != pos0:
+                        bad(i, op, fmt, rel, f"caller-stream-position:{skind}:refused-call",
+                            f"a refused dump moved the caller's stream from {pos0} to {pos1}")
+                elif ref_err is not None and type(err) is not type(ref_err):
+                    bad(i, op, fmt, rel, "class-codec-raises", f"class-level writer raised {ref_err!r}, entry point gave {err!r}")
+                elif ref_err is None and err is not None:
                     bad(i, op, fmt, rel, "raises", f"{type(err).__name__}: {err}")
-                elif r is not None:
+                elif ref_err is None and r is not None:
                     bad(i, op, fmt, rel, "stream-closed-or-result", f"returned {r!r}")
-                elif after != before + ref:
-                    bad(i, op, fmt, rel, "text-differs", "the stream does not hold (what it held) + (the class-level rendering of the object as it is now)")
+                elif after != want_after:
+                    bad(i, op, fmt, rel, "text-differs" if where == "behind-its-text" else f"text-differs:stream-{where}",
+                        f"the {skind} stream of the caller held {len(before)} characters and was positioned {where} (at {pos0}); "
+                        f"it now holds {len(after)} characters, but the class-level writer handed the same stream at the same "
+                        f"position leaves {len(want_after)} (it writes AT the position: {'what the stream held + ' if where == 'behind-its-text' else 'over what lies there, not behind the text: '}"
+                        f"the {'partial text of the failing writer' if ref_err is not None else 'rendering of the object as it is now'})")
+                elif pos1 != want_pos:
+                    bad(i, op, fmt, rel, f"caller-stream-position:{skind}:{outcome}-call",
+                        f"the {skind} stream of the caller (positioned {where} before the call) is left at {pos1}; the class-level "
+                        f"writer handed the same stream leaves it at {want_pos}, right behind the text written")
+                if len(out) > n_bad:
+                    ruined.add(ti % 2)
                 if lw.n:
                     bad(i, op, fmt, rel, f"handle-left-open:{outcome}-call", f"{lw.n} file handle(s) left open: {lw.names[:2]}")
                 if mol_sig(o) != sig0:
@@ -1313,6 +1634,7 @@ def _run_real_steps(rw, prog, work, paths, cur, objs, streams, last, out):
                     fmt = sfmt
                 rel = last.get(("file", slot), "first")
                 before = _read(p) if os.path.exists(p) else ""
+                before_b = _readb(p) if os.path.exists(p) else b""
                 kw = {} if mode is None else {"mode": mode}
                 supported = fmt in ("xyz", "mol2")
                 ref, ref_err = class_ref(fmt)
@@ -1336,8 +1658,8 @@ def _run_real_steps(rw, prog, work, paths, cur, objs, streams, last, out):
                     if supported and type(err) is not type(ref_err):
                         bad(i, op, fmt, rel, "class-codec-raises", f"class-level writer raised {ref_err!r}, entry point gave {err!r}")
                     # whether the refused target was created / truncated is not part of the property: put it back
-                    if before or os.path.exists(p):
-                        _write(p, before)
+                    if before_b or os.path.exists(p):
+                        _write(p, before_b)
                     continue
                 if err is not None:
                     bad(i, op, fmt, rel, "raises", f"{type(err).__name__}: {err}")
@@ -1442,11 +1764,78 @@ def gen_real_progs(ctx, rw):
                     ("load", "load_all", slot, True, "molecule", None, aspath, None, False),
                     ("dumps", "faulty", fmt), ("dumps", oi, fmt),
                     ("dump", oi + 2, "stream", ti, fmt, True, None, False)]))
+    # CONTENT ALPHABET through every entry point: files whose names / labels / comment lines lie beyond ASCII (written by the
+    # class-level writers and by another program), a byte order mark in front, bytes that are not text in the default
+    # encoding -- by path (str / Path, format given / from the suffix), as strings; objects with such names and labels
+    # rendered to strings, into paths and into the caller's streams, and read back
+    for fmt in ("xyz", "mol2"):
+        nx = len(rw.xpool[fmt])
+        for xi in range(nx):
+            for verb in ("load", "load_all"):
+                for aspath in (False, True):
+                    slot = rng.choice(slot_of[fmt])
+                    otn = rng.choice(["molecule", "Structure"] + (["ensemble"] if verb == "load" else []))
+                    other = "load_all" if verb == "load" else "load"
+                    expl = rng.random() < 0.5
+                    ti = rng.randint(0, 1)
+                    p = [("putx", slot, fmt, xi, "inplace"),
+                         ("load", verb, slot, expl, otn, None, aspath, None, False),
+                         ("load", other, slot, not expl, "molecule", "renamed", not aspath, None, True),
+                         ("loadsx", "loads" if verb == "load" else "loads_all", fmt, xi, "molecule" if otn == "ensemble" and verb != "load" else otn, None, False),
+                         ("loadsx", "loads_all" if verb == "load" else "loads", fmt, xi + 1, "Structure", "renamed", False),
+                         ("put", slot, fmt, rng.randint(0, 4), rng.choice(["inplace", "replace"])),
+                         ("load", verb, slot, expl, otn, None, aspath, None, False),
+                         ("putx", slot, fmt, xi + 1, rng.choice(["replace", "keep-mtime"])),
+                         ("load", verb, slot, not expl, otn, "renamed", aspath, None, False),
+                         ("dumps", 3, fmt), ("dumps", 4, fmt),
+                         ("dump", 3 + xi % 2, "path", slot, fmt, expl, "w", aspath),
+                         ("load", "load", slot, True, "molecule", None, not aspath, None, False),
+                         ("dump", 4 - xi % 2, "path", slot, fmt, not expl, rng.choice([None, "a"]), not aspath),
+                         ("load", "load_all", slot, False, "Structure", None, aspath, None, False),
+                         ("dump", 3, "stream", ti, fmt, True, None, False), ("dump", 4, "stream", ti, fmt, True, None, False),
+                         ("seek", ti, 0), ("dump", 3, "stream", ti, fmt, True, "a", False),
+                         ("dump", 4, "stream", 1 - ti, fmt, True, None, False)]
+                    progs.append(("alphabet", p))
+    # POSITION AND PRIOR CONTENT of a stream the caller owns: the stream already holds text and is positioned at its start
+    # (built from a string / opened "r+"), inside it or behind it; its owner rewinds / moves it between dumps; accepted,
+    # refused and failing dumps, with and without an open mode.  Reference: the class-level writer on a twin stream.
+    for fmt in ("xyz", "mol2"):
+        other = "xyz" if fmt == "mol2" else "mol2"
+        for ti in (0, 1):
+            for frac in (0, 0.4, None):
+                for oi in (0, 1, 3):
+                    refusal = ("dump", oi, "stream", ti, rng.choice(["zzz", "sdf", "cdxml"]), True, None, False) if rng.random() < 0.7 \
+                        else ("dump", oi, "stream", ti, fmt, False, None, False)
+                    p = [("restream", ti, rng.choice([fmt, other]), rng.randint(0, 8), frac),
+                         ("dump", oi, "stream", ti, fmt, True, None, False),
+                         ("dump", oi + 1, "stream", ti, other, True, rng.choice([None, "a", "w"]), False),
+                         ("seek", ti, 0), ("dump", oi, "stream", ti, fmt, True, rng.choice([None, "a"]), False), refusal,
+                         ("seek", ti, rng.choice([0.25, 0.5, 0.75])), ("dump", "faulty", "stream", ti, fmt, True, None, False),
+                         ("mutate", oi), ("dump", oi, "stream", ti, other, True, "w", False),
+                         ("seek", ti, None), ("dump", oi + 3, "stream", ti, fmt, True, None, False),
+                         ("dump", oi, "stream", 1 - ti, fmt, True, None, False),
+                         ("seek", 1 - ti, 0), ("dump", oi + 1, "stream", 1 - ti, fmt, True, None, False)]
+                    progs.append(("position", p))
     n_rand = 1200 if ctx.thorough else 120
     for _ in range(n_rand):
         p, have = [], set()
         for _ in range(rng.randint(5, 12)):
             r = rng.random()
+            if rng.random() < 0.15:
+                q = rng.random()
+                if q < 0.3:
+                    p.append(("seek", rng.randint(0, 1), rng.choice([0, 0, 0.3, 0.6, None])))
+                elif q < 0.5:
+                    p.append(("restream", rng.randint(0, 1), rng.choice(["xyz", "mol2"]), rng.randint(0, 8), rng.choice([0, 0.5, None])))
+                elif q < 0.8:
+                    fmt = rng.choice(["xyz", "mol2"])
+                    slot = rng.choice(slot_of[fmt])
+                    p.append(("putx", slot, fmt, rng.randint(0, 4), rng.choice(["inplace", "replace", "keep-mtime"])))
+                    have.add(slot)
+                else:
+                    p.append(("loadsx", rng.choice(["loads", "loads_all"]), rng.choice(["xyz", "mol2"]), rng.randint(0, 3),
+                              rng.choice(["molecule", "Structure"]), rng.choice([None, "renamed"]), False))
+                continue
             if r < 0.25 or not have:
                 fmt = rng.choice(["xyz", "mol2", "cdxml"])
                 slot = rng.choice(slot_of[fmt])
@@ -1498,6 +1887,18 @@ def run_real_seqs(ctx, rep):
             rep.count(f"realseq:pair:{prev}>{cur}")
             if op[0] == "put":
                 rep.count("realseq:rewrite:" + op[4])
+            if op[0] in ("putx", "loadsx"):
+                x = rw.xpool[op[2]] if op[0] == "putx" else [t for t in rw.xpool[op[2]] if isinstance(t, str)]
+                x = x[op[3] % len(x)]
+                rep.count(f"realseq:alphabet:{'file' if op[0] == 'putx' else 'string'}:{op[2]}:"
+                          + ("not-text-in-default-encoding" if isinstance(x, bytes) else "byte-order-mark" if x.startswith("\ufeff")
+                             else "beyond-ascii"))
+            if op[0] in ("dump", "dumps") and op[1] in (3, 4):
+                rep.count(f"realseq:alphabet:object:{op[0]}" + ("-" + op[2] if op[0] == "dump" else ""))
+            if op[0] in ("seek", "restream"):
+                fr = op[-1]
+                rep.count(f"realseq:caller-stream-position:{op[0]}:{CallerStream.KINDS[op[1] % 2]}:"
+                          + ("behind-its-text" if fr is None else "at-its-start" if fr == 0 else "inside-its-text"))
             if op[0] == "dump":
                 sup = op[4] in ("xyz", "mol2") and (op[5] or op[2] == "path")
                 rep.count(f"realseq:caller-owned:{'stream-' + CallerStream.KINDS[op[3] % 2] if op[2] == 'stream' else 'path'}:"
@@ -1521,17 +1922,24 @@ def run(ctx, rep):
                 "quarter of the other spellings) plus random histories under one persistent mock environment, compared "
                 "step by step with Model/DispatchSeq.v `run` by the kernel; directed and random histories on real files / "
                 "objects / streams, each step compared with the class-level codec applied to the source as it is now; "
+                "caller-owned streams holding text and positioned at their start / inside / behind it (families `position`), "
+                "content beyond ASCII through every path / string / stream entry point (all mock records; family `alphabet`); "
                 "distinct by history")
     rep.trusted += ["T-emitter harness/c09.py (recording mocks around molli.load/loads/load_all/loads_all/dump/dumps)",
                     "CPython 3.12 executing molli/reader.py and molli/writer.py",
                     "class-level codecs themselves are NOT verified here (C07, C08)",
                     "T-emitter for histories: harness/c09.py observe_prog (token texts <Dn>/<W:..> written to and parsed from "
-                    "the files/streams; the Python mirror py_step only NAMES a diverging step, Coq check_seq decides)"]
+                    "the files/streams; the Python mirror py_step only NAMES a diverging step, Coq check_seq decides); every "
+                    "token has the same width in characters and in bytes and carries the non-ASCII sampler " + ascii(SAMPLER),
+                    "the harness reads and writes files in the default text encoding of the process ("
+                    + __import__("locale").getpreferredencoding(False) + "), the one the class-level codecs use"]
     rep.assumptions += ["format strings are only compared with literals / set membership, so five representatives "
                         "(xyz, mol2, cdxml, an openbabel-only one, an unknown one) cover all strings",
                         "openbabel is not installed: parser='openbabel' cells are outside the matrix",
                         "histories: whether a REFUSED dump (unsupported format) created or truncated the path it was given "
-                        "is not observed (the property does not say); the file is put back before the next step"]
+                        "is not observed (the property does not say); the file is put back before the next step",
+                        "a caller's stream is positioned anywhere from its start to the end of its text, never beyond it (OSeek "
+                        "clamps): what a stream does with the gap is not the entry point's business"]
     rows = gen_table(ctx)
     for c, a in rows:
         rep.case(key=cell_term(c))
